@@ -19,6 +19,29 @@ def _alarm(signum, frame):
     raise CaseTimeout()
 
 
+def _scrub(v, depth=0):
+    """after the result has been encoded, empty every mutable container the library handed out: if the library keeps
+    (and later returns again) the very same object - a cache, a module-level template - the next call shows it"""
+    if depth > 6:
+        return
+    try:
+        if isinstance(v, list):
+            for x in v:
+                _scrub(x, depth + 1)
+            v.clear()
+        elif isinstance(v, dict):
+            for x in list(v.values()):
+                _scrub(x, depth + 1)
+            v.clear()
+        elif isinstance(v, tuple):
+            for x in v:
+                _scrub(x, depth + 1)
+        elif isinstance(v, bytearray):
+            v.clear()
+    except Exception:
+        pass
+
+
 def main():
     prop_id = sys.argv[1]
     proto_out = os.fdopen(os.dup(1), "w", buffering=1)
@@ -34,6 +57,7 @@ def main():
     import logging
     logging.disable(logging.CRITICAL)
     prop = importlib.import_module(prop_id.lower())
+    scrub = bool(getattr(prop, "SCRUB_RESULTS", True))
     signal.signal(signal.SIGALRM, _alarm)
     proto_out.write("ready\n")
     for line in sys.stdin:
@@ -46,9 +70,21 @@ def main():
                 args = common.dec_many(rest[0]) if rest else []
                 signal.setitimer(signal.ITIMER_REAL, max(0.05, int(tmo) / 1000.0))
                 try:
+                    orig_args = None
+                    if op.endswith("@bytearray"):      # same call with every bytes argument given as a bytearray
+                        op = op[:-len("@bytearray")]
+                        orig_args = args
+                        args = [bytearray(a) if isinstance(a, bytes) else a for a in args]
+                    elif op.endswith("@memoryview"):   # ... or as a read-only memoryview (zero-copy slice of a buffer)
+                        op = op[:-len("@memoryview")]
+                        args = [memoryview(a) if isinstance(a, bytes) else a for a in args]
                     v = prop.IMPL[op](*args)
                     signal.setitimer(signal.ITIMER_REAL, 0)
+                    if orig_args is not None and any(isinstance(o, bytes) and bytes(a) != o for o, a in zip(orig_args, args)):
+                        raise RuntimeError("the call modified its caller's argument buffer in place")
                     out = "ok " + common.enc(v)
+                    if scrub:
+                        _scrub(v)
                 except CaseTimeout:
                     out = "err Timeout " + b"per-case timeout".hex()
                 except BaseException as e:  # noqa
